@@ -88,4 +88,13 @@ CHECKS = {
                 "decimals on a unit normal (|norm(round n) - 1| <= (sqrt3/2) 10^-d). Tie: real jsonschema + json.dumps/loads, decimals 0..12, all single-fault corruptions.",
         "note": COMMON_NOTE + "json.dumps/loads and jsonschema are external (compared, not verified); np.around's float multiply/divide compared with tolerance, exact ties where the float product is inexact are dropped as undetermined.",
     },
+    "C18": {
+        "text": "38 theorems (all in full): projection onto a line lands on the line, residual perpendicular, norm-closest and unique (algebraic form over any ordered field, vg.normalize form over R), "
+                "single / many-to-one / pairwise / one-to-many = row-wise; Line rejects almost-zero directions (model of vg.almost_zero); the faithful model of intersect_lines (|h|/|k|, sign of h.k, "
+                "shortcuts incl. the dead duplicate) equals the sqrt-free closed form p0 - ((h.k)/(k.k)) e, which is sound (a returned point lies on both lines) and complete (a unique common point is "
+                "returned for every incidence pattern of the four points; None for parallel/collinear/skew); 2-D: Cramer, None iff det = 0, sound and complete for any solver meeting the contract. "
+                "Tie: exact classification oracle on lattice line pairs (thorough: all 27^4 quadruples of {-1..1}^3 and 25^4 of {-2..2}^2 plus samples of the larger boxes) + float lines.",
+        "note": COMMON_NOTE + "np.linalg.solve is a parameter (contract: solves the system when det != 0; the executable model uses Cramer). Directions with |v|^2 overflowing/underflowing doubles are not generated. "
+                "Known finding: non-zero directions with all components <= 1e-8 are rejected by Line (vg.almost_zero convention).",
+    },
 }
